@@ -6,7 +6,9 @@
       let [mut] x = unsafe { (*(self.as_ptr())).clone() };     let x := self              (the source, a `Mat α`)
       let [mut] x = unsafe { &mut *(dst.as_mut_ptr()) };       let x := dst               (the destination buffer)
       let [mut] x = e;                                          let x := e
-      let [mut] x = a - b;                                      bindE (usub a b) (fun x => …)   (usize underflow panics)
+      let [mut] x = a - b;                                      bindE (usub a b) (fun x => …)   (usize underflow panics;
+                                                                a subtraction inside a larger expression is bound to a
+                                                                fresh name first, in evaluation order)
       for v in 0..n { body }                                    forRange n state (fun v state => body … .ok state)
                                                                 state = the outer variables the body assigns
       d[e1] = s[e2].clone();                                    bindE (readLin s e2) (fun t => bindE (writeLin d e1 t) (fun d => …))
@@ -214,10 +216,22 @@ def has_sub(ast):
     if ast[0] == 'cast': return has_sub(ast[1])
     return False
 
+def anf(ast, binds, fresh):
+    """every subtraction becomes a checked one bound to a fresh name, in evaluation order (left operand first)"""
+    k = ast[0]
+    if k == 'bin':
+        l = anf(ast[2], binds, fresh); r = anf(ast[3], binds, fresh)
+        if ast[1] == '-':
+            t = fresh(); binds.append((t, l, r)); return ('tmp', t)
+        return ('bin', ast[1], l, r)
+    if k == 'cast': return ('cast', anf(ast[1], binds, fresh))
+    return ast
+
 def render(ast, top=False):
     k = ast[0]
     if k == 'int': return ast[1]
     if k == 'var': return lean_name(ast[1])
+    if k == 'tmp': return ast[1]
     if k == 'meth': return "%s %s" % (ast[1], lean_name(ast[2])) if top else "(%s %s)" % (ast[1], lean_name(ast[2]))
     if k == 'cast': return "b2n %s" % render(ast[1]) if top else "(b2n %s)" % render(ast[1])
     if k == 'bin':
@@ -335,16 +349,25 @@ def translate_routine(name, sig, body):
                 after = block(rest, indent, tail)
                 after[-1] += ")"
                 return [line] + after
-            if has_sub(e): raise Unrecognised("a subtraction inside a larger expression: " + ' '.join(ts))
+            binds = []
+            e = anf(e, binds, fresh)
             names[x] = 'nat'
             if x not in decl_order: decl_order.append(x)
-            return ["%slet %s := %s" % (pad, lean_name(x), render(e, True))] + block(rest, indent, tail)
+            after = block(rest, indent, tail)
+            after[-1] += ")" * len(binds)
+            return ["%sbindE (usub %s %s) (fun %s =>" % (pad, render(l), render(r), tn) for tn, l, r in binds] + \
+                   ["%slet %s := %s" % (pad, lean_name(x), render(e, True))] + after
         if len(ts) > 2 and ts[1] == '+=':
             x = ts[0]
             if names.get(x) != 'nat': raise Unrecognised("+= on " + x)
             e, ty = parse_expr(ts[2:], names)
-            if ty != 'nat' or has_sub(e): raise Unrecognised("+= : " + ' '.join(ts))
-            return ["%slet %s := %s + %s" % (pad, lean_name(x), lean_name(x), render(e))] + block(rest, indent, tail)
+            if ty != 'nat': raise Unrecognised("+= : " + ' '.join(ts))
+            binds = []
+            e = anf(e, binds, fresh)
+            after = block(rest, indent, tail)
+            after[-1] += ")" * len(binds)
+            return ["%sbindE (usub %s %s) (fun %s =>" % (pad, render(l), render(r), tn) for tn, l, r in binds] + \
+                   ["%slet %s := %s + %s" % (pad, lean_name(x), lean_name(x), render(e))] + after
         m = None
         if ts[1:2] == ['[']:
             # D [ e1 ] = S [ e2 ] . clone ( )
@@ -438,6 +461,11 @@ def classify_solve(s):
     if s == '': return ".nop"
     if re.match(r'^unsafe \{ let mut (\w+) = \( & mut \* \( self \. out \. as_mut_ptr \( \) \) \) ; \1 \[ 0 \] = self \. arg \. borrow \( \) \. clone \( \) ; \}$', s):
         return ".scalar1"
+    # the name of the offset variable is the author's choice
+    m = re.match(r'^let (?:mut )?(\w+) = ', s)
+    if m and m.group(1) not in ('offset', 'self', 'e', 'i', 'out', '_'):
+        if 'offset' in s.split(' '): raise Unrecognised("two offset variables")
+        s = ' '.join('offset' if x == m.group(1) else x for x in s.split(' '))
     def step(field, routine, arg, upd):
         if routine not in ROUTINES: raise Unrecognised("call of " + routine)
         return "⟨%s, .%s, %s, %s⟩" % (field, routine, {"0": ".zero", "offset": ".offset", "* i": ".index"}[arg], upd)
